@@ -552,7 +552,11 @@ func propC20(c *Ctx) {
 			continue
 		}
 		good, n := true, 0
-		eachInstr(fn, func(ins ssa.Instruction) {
+		// (the lookup may live in a helper shared by both directions)
+		eachInstrDeep(fn, 1, func(ins ssa.Instruction) {
+			if funcPkgPath(ins.Parent()) != modPath+"/registry" {
+				return
+			}
 			lk, ok := ins.(*ssa.Lookup)
 			if !ok {
 				return
@@ -575,14 +579,14 @@ func propC20(c *Ctx) {
 		// "fast path" that answers "no converter" for a class of types - values
 		// that are not pointers, say - silently stops converting those types in
 		// one direction while the other direction still does)
-		_, always := mustPassBefore(fn.Blocks[0].Instrs[0], func(ins ssa.Instruction) bool {
+		_, always := mustPassBefore(fn.Blocks[0].Instrs[0], viaDeep(func(ins ssa.Instruction) bool {
 			lk, ok := ins.(*ssa.Lookup)
 			if !ok {
 				return false
 			}
 			_, isMap := lk.X.Type().Underlying().(*types.Map)
 			return isMap
-		}, isReturn)
+		}), isReturn)
 		c.Check(rr, "registry."+name+" | lookup on every path", l.Pos(fn.Pos()), always, "every return is preceded by the lookup",
 			"the registry function can return without consulting the table: a class of types is never converted in this direction although a converter is registered (value-type objects come back from ToInterface unconverted)")
 		c.Check(rr, "registry."+name, l.Pos(fn.Pos()), good && n > 0, "keyed by reflect.TypeOf(in)", "the registry is not looked up by the dynamic type itself (e.g. by its name): a different type with the same name is routed to a converter whose assertion panics")
